@@ -1,4 +1,5 @@
 import ClaripyProofs.Lemmas.AST.RulesSound
+import ClaripyProofs.Lemmas.AST.FoldSound
 /-!
 # C01 — bit-vector and Boolean expressions mean exactly what the written operations say
 
@@ -37,6 +38,13 @@ theorem C01_rewrite_step_sound (env : Env) (s : Schema) (hs : s ∈ R.all) (p : 
     (hside : s.side p = true) (hwt : eval env (s.lhs p) ≠ .err)
     (hrec : eval env e' = eval env (s.rhs p)) : eval env e' = eval env (s.lhs p) := by
   rw [hrec]; exact all_sound s hs p env hside hwt
+
+/-- **Eager folding computes the denotation**: whenever the folding model returns a value for a well-typed constant
+node (every operator with a proved bridge lemma: all but `sdiv smod rotl rotr reverse concat`), that value is the
+SMT-LIB value of the node — at every width, for all constants. -/
+theorem C01_fold_sound (op : Op) (hp : Proven op = true) (vs : List CVal) (hwt : Claripy.Props.C04.WT op vs)
+    (hvs : ∀ v ∈ vs, v.Canon) (c : CVal) (h : foldOp op vs = .ok c) : applyOp op (vs.map CVal.toVal) = c.toVal :=
+  foldOp_sound op hp vs hwt hvs c h
 
 /-- The complete property for the model: any constructor (`build`) returning `e` for a well-typed written
 tree `t` satisfies `eval env e = eval env t`.  Not proved in full: `build` is not modelled as one function;
